@@ -23,7 +23,7 @@ func init() {
 			"non-trivial = geometry with >= 2 control points, or an envelope pair; distinct by WKB / by the envelope tuple",
 		Assumptions:      []string{"lattice ordinates are small integers so every expected value is exact in float64", "geometries are valid (a polygon's envelope is documented from its exterior ring)"},
 		MinNontrivial:    500,
-		RequiredMonitors: []string{"tight", "empty-iff", "invariance", "join", "union-join", "method-Contains", "method-Intersects", "method-Covers", "method-Distance", "method-BoundingDiagonal", "method-AsGeometry", "method-classify", "algebra"},
+		RequiredMonitors: []string{"tight", "empty-iff", "invariance", "join", "union-join", "method-Contains", "method-Intersects", "method-Covers", "method-Distance", "method-BoundingDiagonal", "method-AsGeometry", "method-classify", "algebra", "concrete-entry"},
 		Run:              runAll,
 	})
 }
@@ -156,6 +156,7 @@ func geomCase(k *run.K) {
 	k.In("g", shared.WKT(g))
 	want := scanBox(g)
 	e := g.Envelope()
+	shared.ConcreteAgree(k, g, "concrete-entry", []shared.Call{{Method: "Envelope"}}, nil)
 	if g.DumpCoordinates().Length() >= 2 {
 		k.Nontrivial(string(g.AsBinary()))
 	}
